@@ -127,7 +127,7 @@ def points(draw, dim, cls=None):
             else:
                 lam.append(0)
     lam = list(draw(st.permutations(lam)))
-    sc = 10.0 ** (-draw(st.sampled_from([0, 0, 2, 5])))
+    sc = 10.0 ** (-draw(st.sampled_from([0, 0, 2, 5, 9, 12])))
     rot = draw(st.one_of(st.none(), st.integers(0, 999)))
     return dict(g=g, lam=[float(x) / 8.0 * sc for x in lam], rot=rot)
 
